@@ -191,6 +191,9 @@ spec.contract(
     ensures=[('sum of the selected shares', lambda s: N(s.result) == SH(
         unwrap(s.self._array_geo_share).val.labels, S(s.geo_indices)))])
 
+# the getter is `return self._geo_index`: inlined at call sites
+spec.inline.add('TBRMMData.geo_index')
+
 LEMMAS = []
 FUNCTIONS = ['TBRMMData.geo_index.setter', 'TBRMMData.aggregate_time_series',
              'TBRMMData.aggregate_geo_share']
